@@ -160,7 +160,7 @@ class Chipset(object):
         """
         if cmd_data is not None:
             assert len(cmd_data) <= self.host_command_frame_max_size - 2
-            self.log.log(logging.DEBUG-1, "{} {} {:.3f}".format(
+            self.log.log(logging.DEBUG-1, "{} {} {}".format(
                     self.CMD[cmd_code], hexlify(cmd_data).decode(), timeout))
 
             if len(cmd_data) < 254:
@@ -194,9 +194,13 @@ class Chipset(object):
 
         while frame == self.ACK:
             try:
-                frame = self.read_frame(int(1000 * timeout))
+                # without a timeout poll until the response arrives
+                frame = self.read_frame(100 if timeout is None
+                                        else int(1000 * timeout))
             except IOError as error:
                 if error.errno == errno.ETIMEDOUT:
+                    if timeout is None:
+                        continue
                     self.write_frame(self.ACK)  # cancel command
                     time.sleep(0.001)
                 raise error
@@ -450,7 +454,7 @@ class Chipset(object):
 
     def tg_get_initiator_command(self, timeout):
         data = self.command(0x88, b'', timeout)
-        if timeout > 0:
+        if timeout is None or timeout > 0:
             if data and data[0] == 0:
                 return data[1:]
             else:
